@@ -544,7 +544,107 @@ def hdflow_case(rng, i, tmp, ctx):
              'y': [rat(float(o.value)) for o in ys], 'dy': [rat(float(o.dvalue)) for o in ys], 'fr': fr, 'res': res}]
 
 
-MAKERS = [rwms_case, qtop_case, gfms_case, ms5_case, sfcf_case, hd5_case, t0_case, hdmat_case, hddist_case, hdflow_case]
+def msE_case(rng, i, tmp, ctx):
+    """the flowed action density of openQCD ms.dat files (what extract_t0 / extract_w0 are built on): for every flow time an observable
+    of the timeslice average between xmin and tmax - xmin, per spatial volume"""
+    idxs = rep_indices(rng)
+    cl = cfg_lists(rng, idxs)
+    dn, nn, tmax = int(rng.choice([1, 2])), int(rng.integers(2, 5)), int(rng.integers(4, 8))
+    L = int(rng.choice([2, 4]))
+    eps = float(rng.choice([0.02, 0.01, 0.025]))
+    xmin = int(rng.integers(0, (tmax - 1) // 2 + 1))
+    plaq = bool(rng.random() < 0.4)
+    replicas = {k: [(cfg, [[[valn(k, cfg, 1000 * o + 10 * fl + t) for t in range(tmax)] for fl in range(nn + 1)] for o in range(3)]) for cfg in cl[k]] for k in idxs}
+    d = os.path.join(tmp, 'mse%d' % i)
+    w_oq.write_ms_openqcd(d, 'ens', replicas, dn, nn, tmax, eps)
+    kw, sel = selection(rng, 'qtop', [mapped('qtop', cl[k]) for k in idxs])
+    if sel['k'] == 'range':
+        sel['step'] = int(kw.get('r_step', 1))
+    if plaq:
+        kw['plaquette'] = True
+    shuffle = bool(rng.random() < 0.7)
+    with shuffled_listing(rng, shuffle):
+        r = quiet(lambda: pe.input.openQCD._extract_flowed_energy_density(d, 'ens', 1, xmin, L, **kw))
+    if isinstance(r, Exception):
+        objs = r
+    else:
+        keys = sorted(r)
+        objs = [r[t] for t in keys] if np.allclose(keys, [n * dn * eps for n in range(nn + 1)]) else KeyError('flow times')
+    blk = 0 if plaq else 1
+    reps = [{'stem': 'ensr%d' % k, 'recs': [{'cfg': cfg, 'p': [[rat(x) for x in row] for row in p[blk]]} for cfg, p in replicas[k]]} for k in idxs]
+    cid = 'msE-%04d-r%s-x%d-T%d-%s-%s%s' % (i, '_'.join(map(str, idxs)), xmin, tmax, 'plaq' if plaq else 'clover', sel['k'], '-shuf' if shuffle else '')
+    ctx.nontrivial.add(('msE', tuple(idxs), xmin, plaq, sel['k'], shuffle))
+    return [{'id': cid, 'ev': 'read', 'fmt': 'msE', 'reps': reps, 'par': {'xmin': xmin, 'L': L}, 'sel': sel, 'res': res_series(objs)}]
+
+
+def mst0_case(rng, i, tmp, ctx):
+    """extract_t0 / extract_w0 from ms.dat files: fit_t0 of t^2 E - c, or of t d/dt (t^2 E) - c (one-sided differences at the ends) and a
+    square root, of the action density built from the stored numbers"""
+    which = ['t0', 'w0'][i % 2]
+    idxs = rep_indices(rng)[:2]
+    cl = cfg_lists(rng, idxs, nmin=8, nmax=14)
+    dn, nn, tmax, L = 1, int(rng.integers(8, 13)), int(rng.integers(4, 7)), 2
+    eps = float(rng.choice([0.02, 0.05]))
+    xmin = int(rng.integers(0, 2))
+    fr = int(rng.integers(1, 3))
+    cc = float(rng.choice([0.3, 0.3, 2.0 / 3.0]))
+    ft = [n * dn * eps for n in range(nn + 1)]
+    troot = float(rng.uniform(ft[fr + 1], ft[nn - 1]))
+    a = cc / troot ** 2 if which == 't0' else cc / (2 * troot ** 2)          # E(t) = a: t^2 E = a t^2, t d/dt (t^2 E) = 2 a t^2
+    replicas = {k: [(cfg, [[[L ** 3 * a * (1 + 0.03 * float(rng.normal())) for t in range(tmax)] for fl in range(nn + 1)] for o in range(3)]) for cfg in cl[k]] for k in idxs}
+    d = os.path.join(tmp, 'mst%d' % i)
+    w_oq.write_ms_openqcd(d, 'ens', replicas, dn, nn, tmax, eps)
+    shuffle = bool(rng.random() < 0.7)
+    f = pe.input.openQCD.extract_t0 if which == 't0' else pe.input.openQCD.extract_w0
+    with shuffled_listing(rng, shuffle):
+        r = quiet(lambda: f(d, 'ens', 1, xmin, L, fit_range=fr, c=cc))
+    names = ['ens|r%d' % k for k in idxs]
+    idl = [mapped('qtop', cl[k]) for k in idxs]
+    E = [pe.Obs([np.array([np.mean(p[1][n][xmin:tmax - xmin]) for _, p in replicas[k]]) for k in idxs], names, idl=idl) / L ** 3 for n in range(nn + 1)]
+    t2E = [ft[n] ** 2 * E[n] for n in range(nn + 1)]
+    if which == 't0':
+        ys = [o - cc for o in t2E]
+    else:
+        ys = [ft[0] * (t2E[1] - t2E[0]) / (ft[1] - ft[0]) - cc]
+        ys += [ft[n] * (t2E[n + 1] - t2E[n - 1]) / (ft[n + 1] - ft[n - 1]) - cc for n in range(1, nn)]
+        ys += [ft[nn] * (t2E[nn] - t2E[nn - 1]) / (ft[nn] - ft[nn - 1]) - cc]
+    [o.gamma_method() for o in ys]
+    res = {'k': 'exc', 't': type(r).__name__} if isinstance(r, Exception) else {'k': 'ok', 'v': ratx(float(r.value))}
+    ctx.nontrivial.add(('mst0', which, nn, fr, tuple(idxs)))
+    return [{'id': 'ms%s-%04d-nn%d-fr%d-r%s%s' % (which, i, nn, fr, '_'.join(map(str, idxs)), '-shuf' if shuffle else ''), 'ev': 'fit_t0', 'fmt': 't0', 'x': [rat(x) for x in ft],
+             'y': [rat(float(o.value)) for o in ys], 'dy': [rat(float(o.dvalue)) for o in ys], 'fr': fr, 'sqrt': which == 'w0', 'res': res}]
+
+
+def pbp_case(rng, i, tmp, ctx):
+    """read_pbp: the layout of the 1.6 reweighting files with two blocks per factor, of which the second is averaged; configurations by position"""
+    idxs = rep_indices(rng)
+    cl = cfg_lists(rng, idxs)
+    nrw = int(rng.integers(1, 3))
+    nfct = [int(rng.integers(1, 3)) for _ in range(nrw)]
+    nsrc = [int(rng.integers(1, 4)) for _ in range(nrw)]
+    replicas = {k: [(cfg, [[([valn(k, cfg, 100 * a + 10 * f + s_) for s_ in range(nsrc[a])], [valn(k, cfg, 500 + 100 * a + 10 * f + s_) for s_ in range(nsrc[a])])
+                            for f in range(nfct[a])] for a in range(nrw)]) for cfg in cl[k]] for k in idxs}
+    d = os.path.join(tmp, 'pbp%d' % i)
+    w_oq.write_pbp(d, 'ens', replicas, nfct, nsrc)
+    kw, sel = {}, {'k': 'all'}
+    if rng.random() < 0.5:
+        start = [int(rng.integers(0, 3)) for _ in idxs]                        # 0 = from the first record
+        stop = [len(cl[k]) - int(rng.integers(0, 2)) for k in idxs]
+        if all(stop[j] - max(start[j], 1) + 1 >= 5 for j in range(len(idxs))):
+            kw = {'r_start': list(start), 'r_stop': list(stop)}
+            sel = {'k': 'range', 'start': start, 'stop': stop, 'step': 1}
+    shuffle = bool(rng.random() < 0.7)
+    with shuffled_listing(rng, shuffle):
+        r = quiet(lambda: pe.input.misc.read_pbp(d, 'ens', **kw))
+    reps = [{'stem': 'ensr%d' % k, 'recs': [{'cfg': cfg, 'p': [[[[rat(x) for x in blk] for blk in f] for f in a] for a in p]} for cfg, p in replicas[k]]} for k in idxs]
+    cid = 'pbp-%04d-r%s-%s%s' % (i, '_'.join(map(str, idxs)), sel['k'], '-shuf' if shuffle else '')
+    ctx.nontrivial.add(('pbp', tuple(idxs), sel['k'], shuffle))
+    return [{'id': cid, 'ev': 'read', 'fmt': 'pbp', 'reps': reps, 'par': {'none': 0}, 'sel': sel, 'res': res_series(r)}]
+
+
+MAKERS = [rwms_case, qtop_case, gfms_case, ms5_case, sfcf_case, hd5_case, t0_case, hdmat_case, hddist_case, hdflow_case, msE_case, mst0_case, pbp_case]
+
+
 
 
 def run(ctx):
